@@ -11,7 +11,9 @@ mod dec;
 mod foreign;
 mod gen;
 mod json;
+mod pipe;
 mod props_dec;
+mod props_pipe;
 mod refinf;
 mod rng;
 mod runner;
@@ -24,6 +26,7 @@ use runner::{CheckDef, Tier};
 fn registry() -> Vec<CheckDef> {
     let mut v = Vec::new();
     v.extend(props_dec::defs());
+    v.extend(props_pipe::defs());
     v
 }
 
